@@ -75,9 +75,9 @@ func (p c15) Run(par *fw.Parent) *fw.Result {
 	}
 	qrDeg := qrDegreeReqs(r)
 	dmDeg := dmDegreeReqs(r)
-	npool := 60
+	npool := 120
 	if thorough {
-		npool = 400
+		npool = 600
 	}
 	var pool []Req
 	pool = append(pool, qrDeg...)
@@ -89,6 +89,33 @@ func (p c15) Run(par *fw.Parent) *fw.Result {
 			sch = int64(r.Intn(200))
 		}
 		pool = append(pool, randomValidReq(r, fam, sch))
+	}
+	// the same content under different parameters (state keyed too coarsely shows here)
+	for _, txt := range []string{"A+B", "HELLO $%/+", "1234567890", "ABC-123"} {
+		for cs := int64(0); cs < 2; cs++ {
+			for full := int64(0); full < 2; full++ {
+				pool = append(pool, Req{Fam: "code39", S: []byte(txt), I: []int64{cs, full}, Scheme: -1}, Req{Fam: "code93", S: []byte(txt), I: []int64{cs, full}, Scheme: -1})
+			}
+		}
+		for lvl := int64(0); lvl < 4; lvl++ {
+			for mode := int64(0); mode < 4; mode++ {
+				pool = append(pool, Req{Fam: "qr", S: []byte(txt), I: []int64{lvl, mode}, Scheme: -1})
+			}
+		}
+		pool = append(pool, Req{Fam: "code128", S: []byte(txt), Scheme: -1}, Req{Fam: "code128nocs", S: []byte(txt), Scheme: -1},
+			Req{Fam: "datamatrix", S: []byte(txt), Scheme: -1}, Req{Fam: "datamatrix", S: []byte(txt), Scheme: 5})
+	}
+	for _, n := range []int{20, 21, 38, 39, 60} {
+		d := randBytes(r, n, highAB)
+		for lvl := int64(0); lvl < 9; lvl++ {
+			pool = append(pool, Req{Fam: "pdf417", S: d, I: []int64{lvl}, Scheme: -1})
+		}
+		for _, pl := range [][2]int64{{0, 0}, {23, 0}, {33, 0}, {33, -4}, {33, 6}, {90, 0}} {
+			pool = append(pool, Req{Fam: "aztec", S: d, I: []int64{pl[0], pl[1]}, Scheme: -1})
+		}
+	}
+	for _, dg := range []string{"12", "123456", "40414240"} {
+		pool = append(pool, Req{Fam: "2of5", S: []byte(dg), I: []int64{0}, Scheme: -1}, Req{Fam: "2of5", S: []byte(dg), I: []int64{1}, Scheme: -1})
 	}
 	// some requests that are rejected, and Auto-mode QR taking the alphanumeric failure path
 	pool = append(pool, Req{Fam: "qr", S: []byte("hello world"), I: []int64{1, 0}, Scheme: -1},
@@ -105,9 +132,9 @@ func (p c15) Run(par *fw.Parent) *fw.Result {
 		jobs = append(jobs, histJob{ID: fmt.Sprintf("oneshot-%d", i), Kind: "oneshot", Reqs: []Req{q}})
 	}
 	// (b) long-lived histories
-	nh, hl := 4, 300
+	nh, hl := 8, 600
 	if thorough {
-		nh, hl = 16, 2000
+		nh, hl = 32, 3000
 	}
 	idxQR := make([]int, len(qrDeg))
 	for i := range idxQR {
